@@ -32,7 +32,13 @@ TEXTS = [
     "round(1.5, 'x')",
     "round('1.5', 2)",
     "1 / 3 + 2 / 3 * 3",
+    # history-only texts (no havoc obligation): names spelled like builtins are assigned, later programs call the builtins
+    "sum = 0\nlen = [1]\nkeys = 2\nmax += 1\nstr = 'q'",
+    "sum([1, 2]) + len('ab') + max(1, 5) + len(keys({'k': 1})) + len(str(12))",
+    "int = x => 7\nint(2)",
+    "int('41') + 1",
 ]
+HISTORY_ONLY = {25, 26, 27, 28}
 
 
 def outcome(p, call, text, names=None, budget=100):
@@ -102,7 +108,7 @@ def _first(p, kind, ti):
         pass
 
 
-SECOND_QUICK = [(0, 1), (0, 3), (1, 13), (1, 14), (1, 10), (2, 9), (1, 1), (0, 13), (1, 15), (2, 3), (1, 18), (1, 20), (1, 21), (1, 19), (1, 24)]
+SECOND_QUICK = [(0, 1), (0, 3), (1, 13), (1, 14), (1, 10), (2, 9), (1, 1), (0, 13), (1, 15), (2, 3), (1, 18), (1, 20), (1, 21), (1, 19), (1, 24), (1, 26), (1, 28)]
 
 
 def hlib_reset():
@@ -115,13 +121,13 @@ def hlib_reset():
 
 def history_pair(kind: int, si: int) -> None:
     """
-    pre: 0 <= kind <= 4 and 0 <= si < 75
+    pre: 0 <= kind <= 4 and 0 <= si < 90
     post: True
     """
     hlib.enter(locals())
     t1 = hlib.PARAM["t1"]
     second = SECOND_QUICK if hlib.PARAM["quick"] else [(c, t) for c in range(3) for t in range(len(TEXTS))]
-    kind, si = hlib.concrete(kind, 0, 4), hlib.concrete(si, 0, 74)
+    kind, si = hlib.concrete(kind, 0, 4), hlib.concrete(si, 0, 89)
     hlib.assume(si < len(second))
     call2, t2 = second[si]
     c2 = ('parse', 'eval', 'list_names')[call2]
